@@ -64,8 +64,12 @@ func (v *Voting[_, _]) outcomeIndex(numRequiredVotes int) (int, bool) {
 	for _, vote := range v.Votes {
 		numVotes[vote]++
 	}
-	for index, votes := range numVotes {
-		if votes >= numRequiredVotes {
+	// Check the candidates in index order. Ranging over the numVotes map here would make the result
+	// depend on Go's randomised map iteration order whenever more than one candidate has enough
+	// votes, and replicas of the chain could then disagree.
+	for index := range v.Candidates {
+		votes := numVotes[index]
+		if votes > 0 && votes >= numRequiredVotes {
 			return index, true
 		}
 	}
